@@ -134,8 +134,15 @@ def run(c, prog, R="C03.gram"):
                     c.violation(R, f"fields|{T}", f"docs/binary.md ({sp['section']}) orders the fields of {T} as {sp['fields']}; the encoder writes {paths}", core.loc(earms[T]["body"]), instance=inst)
                     continue
             c.ok(R, inst)
-        # the document's own field table, when it has one, must have as many leaf fields as the transcription
         dname = {"Ref": "Referent", "OptionalCFrame": "OptionalCoordinateFrame"}.get(T, T)
+        # the document's convention: integers are little-endian unless the section says otherwise.  write_interleaved_u32_array
+        # writes (and read_interleaved_u32_array reads) big-endian words, so a section describing such a column has to say so
+        if "columns" in sp and "ilv_u32" in sp["columns"] and dname in doc:
+            if re.search(r"big[- ]endian", doc[dname][1], re.I):
+                c.ok(R, inst + ":endianness-stated")
+            else:
+                c.violation(R, f"endian-doc|{T}", f"docs/binary.md ({sp['section']}) describes the column of {T} as an interleaved array of `u32` without saying it is big-endian, while its conventions make every integer little-endian unless noted (Int32, Enum, BrickColor, Int64 are noted); the codec writes and reads big-endian words: an encoder written from the document stores index 1 as 01 00 00 00, which rbx_binary reads as 16777216 and rejects", "docs/binary.md", instance=inst + ":endianness-stated")
+        # the document's own field table, when it has one, must have as many leaf fields as the transcription
         if dname in doc and "fields" in sp:
             ft = spec.field_table(doc[dname][1])
             if ft is not None and T not in ("UDim2", "Rect", "Color3uint8") and len(ft) != len(sp["fields"]):
